@@ -154,6 +154,11 @@ def body_cli(case, rec):
         if res.exit_code != 0:
             rec.note(case, False, {"error"})
             return
+        if fasta and len(case["map"]) % 2:
+            # judged is a SECOND run into the same directory, which loads the index files the first run wrote
+            res = remap.run_cli_inprocess(["-a", src, "-p", mp, "-o", out], fasta_buffer=case.get("fasta_buffer"))
+            if res.exit_code != 0:
+                raise Violation(f"second run (index files present) failed: {res.exception!r}")
         nt = False
         for f in sorted(out.parent.iterdir()):
             if not f.name.endswith(".agp"):
